@@ -1,6 +1,6 @@
 """C20 RISC-V 64 JIT output is equivalent to the interpreter."""
 import astq
-from rules import genreset, jit, jitcross, rv64, rvhsem, rtpreserve, rvdsread
+from rules import genreset, jit, jitcross, rv64, rvhsem, rtpreserve, rvdsread, aeshw
 
 LEVEL = 'other'
 TECHNIQUE = ('cross-target parse (clang --target=riscv64) of the back-end that this host never compiles + sibling agreement with the interpreter on resolved-AST feature vectors, known-bits evaluation of emitted constants and of branch-offset bit scatter against the ISA encoding tables, finite enumeration of the literal-pool index, max-path code-size bound against the assembled template'
@@ -50,3 +50,4 @@ def run(ctx, R):
     rtpreserve.rule_rv(ctx, R, 'rv64')
     rtpreserve.rule_const(ctx, R, 'rv64')
     rvdsread.rule_dsread(ctx, R)
+    aeshw.rule_rvv_jit_vlen(ctx, R)
